@@ -565,6 +565,25 @@ def make_print_strftime(rng):
             "nontrivial": True}
 
 
+def week_date_fallback_cases():
+    """week-date arguments on days whose ISO week-year is not their civil
+    year, printed with directives only the C library knows"""
+    import datetime as _dt
+    for text, (y, m, d) in (("2020-W53-5T06:07:08Z", (2021, 1, 1)),
+                            ("2015-W53-7T06:07:08Z", (2016, 1, 3)),
+                            ("2020-W01-1T06:07:08Z", (2019, 12, 30)),
+                            ("2009W537T060708Z", (2010, 1, 3)),
+                            ("2019-W01-2T06:07:08Z", (2019, 1, 1 - 0))):
+        if text.startswith("2019-W01-2"):
+            y, m, d = 2019, 1, 1
+        for fmt in ("%a %d %b %Y", "%A %B %d %y", "%Y-%m-%d %H:%M:%S"):
+            out = _dt.datetime(y, m, d, 6, 7, 8).strftime(fmt)
+            yield {"op": "run", "argv": [text, "-f", fmt], "env": {},
+                   "local": [0, 0], "expect": {"stdout": out + "\n"},
+                   "classes": ["shift/print-strftime-fallback-week-date"],
+                   "nontrivial": True}
+
+
 def diff_zone_cases():
     """two date-times in different zones, the second on a day that is
     another calendar day in the first one's zone, with a month or year
@@ -1093,6 +1112,9 @@ def workload(ctx, repo):
             ctx.case = case
             run_case(ctx, repo, case)
         for case in diff_zone_cases():
+            ctx.case = case
+            run_case(ctx, repo, case)
+        for case in week_date_fallback_cases():
             ctx.case = case
             run_case(ctx, repo, case)
         for case in ctime_fixed_cases():
